@@ -17,10 +17,13 @@ type obs struct {
 	got  []string
 }
 
-func (o *obs) WriteString(line string) (int, error) { o.got = append(o.got, line); return len(line), nil }
-func (o *obs) SetLines(lines []string)              { o.got = append([]string{}, lines...) }
-func (o *obs) GetTailLength() int                   { return o.tail }
-func (o *obs) GetUniqueID() string                  { return o.id }
+func (o *obs) WriteString(line string) (int, error) {
+	o.got = append(o.got, line)
+	return len(line), nil
+}
+func (o *obs) SetLines(lines []string) { o.got = append([]string{}, lines...) }
+func (o *obs) GetTailLength() int      { return o.tail }
+func (o *obs) GetUniqueID() string     { return o.id }
 
 type logbuf struct {
 	b    *pclog.ProcessLogBuffer
